@@ -52,18 +52,30 @@ IsExcluded(r) == \E k \in DOMAIN Excluded : Excluded[k][1] = P.id /\ Excluded[k]
 Judged == {r \in DOMAIN P.runs : P.runs[r].err = 0 /\ ~IsExcluded(r)}
 
 (* C01: invariant at block entry / block exit contains the current state *)
+(* runs of the refining forward-backward analyzer with use_refined_invariants report reachable states
+   INTERSECTED with the necessary preconditions of errors: they are not invariants (judgeinv = 0) *)
 InvOK(r) ==
-  /\ (i = 1 => InGamma(s, P.runs[r].pre[b]))
-  /\ (AtExit => InGamma(s, P.runs[r].post[b]))
+  P.runs[r].judgeinv = 1 =>
+    /\ (i = 1 => InGamma(s, P.runs[r].pre[b]))
+    /\ (AtExit => InGamma(s, P.runs[r].post[b]))
 
 (* C02: verdicts of the assertion the execution stands at *)
 Verdicts(r, id) == {P.runs[r].checks[k].res : k \in {q \in DOMAIN P.runs[r].checks : P.runs[r].checks[q].id = id}}
 CondHolds(st) == IF st.op = "assert" THEN Holds(st.c, s) ELSE s[st.x] = 1
+(* Known finding (known_findings.json, kind "refined-unreach"): with use_refined_invariants the
+   forward-backward analyzer reports reachable states INTERSECTED with the co-reachable-from-error states, so
+   an assertion that cannot fail is classified 'unreachable' although executions reach it.  While that entry is
+   open, 'unreachable' of such a run is judged like 'safe' (the condition must hold) and the occurrence is
+   printed; every other contradiction is a violation. *)
+KnownSigs == JsonDeserialize(IOEnv.KNOWN_FINDINGS)
+RefinedUnreachKnown == \E k \in DOMAIN KnownSigs : KnownSigs[k].sig.engine = "bwd_runner" /\ KnownSigs[k].sig.kind = "refined-unreach"
 CheckOK(r) ==
   IF AtExit \/ Stmts[i].op \notin {"assert", "bassert"} THEN TRUE
   ELSE LET v == Verdicts(r, Stmts[i].id)
-       IN /\ "unreach" \notin v
-          /\ ("safe" \in v => CondHolds(Stmts[i]))
+       IN IF P.runs[r].judgeinv = 0 /\ RefinedUnreachKnown /\ "unreach" \in v
+            THEN CondHolds(Stmts[i]) /\ PrintT(<<"KNOWN", "refined-unreach", P.id, r, P.runs[r].dom>>)
+            ELSE /\ "unreach" \notin v
+                 /\ ("safe" \in v => CondHolds(Stmts[i]))
 
 FailingInv == {r \in Judged : ~InvOK(r)}
 FailingCheck == {r \in Judged : ~CheckOK(r)}
